@@ -312,8 +312,8 @@ def max_size(run):
                 # the request carrying the limit is 16 bytes longer than the plain one; its answer is not
                 want = "ResponseTooLarge" if n > m else "Success"
                 run.case(("maxsize", m - n, ver, tuple(kinds)))
-                if esc or len(kinds) != 2 or kinds[0] != want or kinds[1] != "Success" or \
-                        (kinds[0] == "ResponseTooLarge" and len(c.sent[0]) > max(m, ntl)):
+                # (how long the replacement itself is, is the server's business: its wording may mention the sizes)
+                if esc or len(kinds) != 2 or kinds[0] != want or kinds[1] != "Success":
                     run.violation("C12_max_response_size", {"m_vs_len": "over" if n > m else "within", "ver": ver[0] * 10 + ver[1]},
                                   {"maximum_response_size": m, "normal_response_length": n, "responses": kinds, "escaped": esc})
         run.traces += 39
